@@ -277,6 +277,21 @@ def _ancestors(node, stop):
         p = getattr(p, "_parent", None)
 
 
+# functions whose mechanical mutants are swept in the thorough tier (coverage evidence, see sa/mutate.py)
+MUTATION_SCOPE = ['db/sys_fn_db:Table.get',
+                  'db/sys_fn_db:Table.set',
+                  'db/sys_fn_db:Table.schema',
+                  'db/sys_fn_db:Table.set_index',
+                  'db/sys_fn_db:Table.reset_index',
+                  'db/sys_fn_db:Table.get_dataframe',
+                  'db/sys_fn_db:Table.insert',
+                  'db/sys_fn_db:Table.insertb',
+                  'db/sys_fn_db:Table.commit',
+                  'db/sys_fn_db:Table.__len__',
+                  'db/sys_fn_db:Table.__str__',
+                  'db/sys_fn_db:Database.__call__',
+                  'db/sys_fn_kvs:TableStorage.set']
+
 SEEDS = [
     Seed("get-without-flush", "fault", MOD, "        v = self.get_dataframe().get(x)", "        v = self._df.get(x)", rule="C19-R1"),
     Seed("set-without-flush", "fault", MOD, "        self.get_dataframe()[x] = y", "        self._df[x] = y", rule="C19-R1"),
